@@ -622,18 +622,37 @@ func (ndb *nodeDB) DeleteVersionsFrom(fromVersion int64) error {
 	}
 	dumpFromVersion := fromVersion
 	if legacyLatestVersion >= fromVersion {
+		// The roots are collected first (no write may happen within the domain of
+		// an open iterator) and processed from the newest version down: the nodes
+		// a version created are shared with later versions only, and their
+		// version can only be read while they are still stored, whenever the
+		// batch happens to be flushed.
+		type legacyRoot struct {
+			key, hash []byte
+			version   int64
+		}
+		var legacyRoots []legacyRoot
 		if err := ndb.traverseRange(legacyRootKeyFormat.Key(fromVersion), legacyRootKeyFormat.Key(legacyLatestVersion+1), func(k, v []byte) error {
 			var version int64
 			legacyRootKeyFormat.Scan(k, &version)
-			// delete the legacy nodes
-			if err := ndb.deleteLegacyNodes(version, v); err != nil {
-				return err
+			legacyRoots = append(legacyRoots, legacyRoot{key: ibytes.Cp(k), hash: ibytes.Cp(v), version: version})
+			return nil
+		}); err != nil {
+			return err
+		}
+		for i := len(legacyRoots) - 1; i >= 0; i-- {
+			root := legacyRoots[i]
+			// delete the legacy nodes (an empty tree has an empty root hash and no nodes)
+			if len(root.hash) > 0 {
+				if err := ndb.deleteLegacyNodes(root.version, root.hash); err != nil {
+					return err
+				}
 			}
 			// it will skip the orphans because orphans will be removed at once in `deleteLegacyVersions`
 			// delete the legacy root
-			return ndb.batch.Delete(k)
-		}); err != nil {
-			return err
+			if err := ndb.batch.Delete(root.key); err != nil {
+				return err
+			}
 		}
 		// Update the legacy latest version forcibly
 		ndb.legacyLatestVersion = 0
